@@ -280,6 +280,16 @@ func ruleR10(c *Ctx) {
 					key := fmt.Sprintf("%s %s with %s in [%d,%d]", u.Name, display((&canonCtx{info: info}).canon(y)), v.Name(), r[0], r[1])
 					if r[0]+off >= 0 && r[1]+off < arr.Len() {
 						c.r.ok("R10", key, c.m.pos(y.Pos()), fmt.Sprintf("index range [%d,%d] fits array of length %d", r[0]+off, r[1]+off, arr.Len()), props...)
+						// a table indexed by a byte value (256 entries) is enumerated completely: a loop
+						// that stops at 254 or starts at 1 silently skips one branch byte
+						if off == 0 && arr.Len() == 256 {
+							k2 := fmt.Sprintf("%s enumerates all of %s", u.Name, display((&canonCtx{info: info}).canon(y.X)))
+							if r[0] == 0 && r[1] == 255 {
+								c.r.ok("R10", k2, c.m.pos(y.Pos()), "induction range [0,255] covers the 256 byte values", props...)
+							} else {
+								c.r.bad("R10", k2, c.m.pos(y.Pos()), fmt.Sprintf("the loop visits entries [%d,%d] of a table with one entry per byte value: the children under the other byte values are never seen", r[0], r[1]), props...)
+							}
+						}
 					} else {
 						c.r.bad("R10", key, c.m.pos(y.Pos()), fmt.Sprintf("index range [%d,%d] does not fit the array of length %d it indexes", r[0]+off, r[1]+off, arr.Len()), props...)
 					}
